@@ -13,6 +13,7 @@ Check(good, clause, exp, got) == IF good THEN TRUE ELSE Say(clause, exp, got)
 Expected(e) ==
   CASE e.op \in {"attach", "new_module"} -> Attach(st, e.args[1], e.args[2])
     [] e.op = "attach_end"     -> AttachEnd(st, e.args[1], e.args[2])
+    [] e.op = "set_note_num"   -> SetNoteNum(st, e.args[1], e.args[2])
     [] e.op = "attach_none"    -> AttachNone(st, e.args[1])
     [] e.op = "attach_pattern" -> AttachPattern(st, e.args[1], e.args[2])
     [] e.op = "iadd"           -> IAdd(st, e.args[1], e.args[2])
@@ -20,7 +21,7 @@ Expected(e) ==
     [] e.op = "set_note_mod"   -> SetNoteMod(st, e.args[1], e.args[2])
     [] e.op = "get_note_mod"   -> GetNoteMod(st, e.args[1])
 
-Ops == {"attach", "new_module", "attach_end", "attach_none", "attach_pattern", "iadd", "saveload", "set_note_mod", "get_note_mod"}
+Ops == {"attach", "new_module", "attach_end", "attach_none", "attach_pattern", "iadd", "saveload", "set_note_mod", "set_note_num", "get_note_mod"}
 RetOK(e, r) ==
   CASE e.op = "get_note_mod" -> r.outcome # "ok" \/ e.ret \in r.ret
     [] e.op \in {"attach", "new_module", "attach_end", "attach_pattern"} -> r.outcome # "ok" \/ e.ret = r.ret
